@@ -356,14 +356,15 @@ func TestC01(t *testing.T) {
 			}
 		}
 	}
-	// ---- the real binary with every spelling of the root (abs, relative, trailing slash, default '.') ----
+	// ---- the real binary with every spelling of the root (abs, relative, trailing slash, default '.', the directory as first argument without a sub-command) ----
 	if binPath() != "" {
 		binPaths := c01Paths(2)
 		if r.Thorough() {
 			binPaths = c01Paths(3)
 		}
 		type spell struct{ name, arg, cwd string }
-		sps := []spell{{"absolute", A.w.Root, A.w.Dir}, {"relative", "root", filepath.Join(A.w.Dir, "srv")}, {"trailing-slash", A.w.Root + "/", A.w.Dir}, {"default-dot", "", A.w.Root}, {"dot-slash", "./", A.w.Root}}
+		sps := []spell{{"absolute", A.w.Root, A.w.Dir}, {"relative", "root", filepath.Join(A.w.Dir, "srv")}, {"trailing-slash", A.w.Root + "/", A.w.Dir}, {"default-dot", "", A.w.Root}, {"dot-slash", "./", A.w.Root},
+			{"positional-directory", "positional:" + A.w.Root, A.w.Dir}, {"positional-relative", "positional:srv/root/", A.w.Dir}}
 		bi := 0
 		for _, sp := range sps {
 			for _, allow := range []bool{false, true} {
